@@ -34,6 +34,13 @@ def toFpmAndBack (e : R → V) (ofR : R → V) (sqrt : R → R) (m n My Mx : Nat
   let αx' : R := axisAlpha (Num.ofInt (Mx : Int)) fpmDx efl lam dx
   maskAndBack e m n My Mx αy αx (shiftSamples shy fpmDx) (shiftSamples shx fpmDx) (ofR (sqrt αy * sqrt αx))
     αy' αx' (fpmBackShift shy dx fpmDx) (fpmBackShift shx dx fpmDx) (ofR (sqrt αy' * sqrt αx')) mask f j i
+
+/-- `Wavefront.babinet(efl, lyot, fpm, fpm_dx)` (no mask shift): the field at the Lyot plane is the incoming field minus what
+returns through the COMPLEMENT `1 - fpm` of the mask; the Lyot stop multiplies it -/
+def babinet (e : R → V) (ofR : R → V) (sqrt : R → R) (m n My Mx : Nat) (dx efl lam fpmDx : R)
+    (lyot mask : Nat → Nat → V) (f : Nat → Nat → V) (j i : Nat) : V :=
+  lyot j i * (f j i - toFpmAndBack e ofR sqrt m n My Mx dx efl lam fpmDx (Num.ofInt 0) (Num.ofInt 0)
+    (fun k l => Num.ofInt 1 - mask k l) f j i)
 end
 
 end Model.C05
